@@ -2,6 +2,16 @@
 """Write /verif/seeded/<name>/meta.json for every seeded change from its confirmation.txt."""
 import json, os, re, glob
 NEEDS = {
+ "C02d_same_point_skip_with_norm_relative_comparison": "badly scaled parameters (|alpha| dominated by one component, e.g. omega ~ 1e6..1e9 next to a phase) and an update that moves only the small component by less than eps*|alpha|: the cache is kept although the model received the new parameters",
+ "C03d_jacobian_projector_truncated_at_epsilon": "a full-column-rank W*Phi with some but not all singular values at or below epsilon (user epsilon, f32 default epsilon with a column ~1e-8, tiny weights): the projector in jacobian() shrinks to the kept singular vectors",
+ "C04d_unsigned_dof_subtraction_in_jacobian": "more basis functions than samples (N < M), a non-zero initial residual and a build with overflow checks: nrows - ncoefficients panics inside fit",
+ "C07d_rank_tolerance_from_rhs_shape": "more right-hand sides than samples (S > N) and a near-collinear basis with N*eps < sigma_min/sigma_max < S*eps: the truncation threshold grows with the number of observation columns",
+ "C09d_memo_restore_ignores_model_error": "set_params(a), set_params(b), set_params(a) with the model failing on the third call (inside a fit: the final re-application after a single rejected trial): memoised calculations restored although the model refused",
+ "C10d_cache_kept_on_svd_breakdown": "a finite W*Phi whose decomposition breaks down (entries ~1e308) applied to a problem that holds a valid cache: the old cache is kept, a fresh problem reports None",
+ "C11d_parallel_projector_truncated_at_epsilon": "parallel flavour only: a singular value at or below epsilon at an alpha where the Jacobian is evaluated (exact collision, vanishing basis function, user epsilon)",
+ "C15d_unused_parameter_bitmask_off_by_one": "exactly 64 model parameters: 1u64 << 64 panics in overflow-checked builds for a valid specification; in release the mask is 0 and an unused parameter is accepted",
+ "C16d_invariant_function_precalculated_on_first_grid": "independent_variable(x1) before invariant_function(f), then independent_variable(x2) of the same length with other values, f not constant: column evaluated on x1",
+ "C17d_empty_grid_shortcut_before_checks": "a builder-made model with an independent variable of length 0: out-of-range derivative index or wrong-length function output give Ok(0 x M) instead of an error",
  "C05c_parameter_run_fast_path_checks_ends_only": "a builder function with >= 3 parameters whose first and last model indices bound exactly that many positions but whose interior indices are permuted or outside (model [tau,t0,omega,phi], function (tau,phi,omega)): evaluated on the wrong parameters",
  "C06c_tiny_weights_masked_as_zero": "a non-zero weight of magnitude <= 2.2e-16 (standard deviations above 4.5e15 in the units used): the row is multiplied by 0 instead of w_i",
  "C08c_par_all_finite_zero_chunk": "parallel flavour with N*M smaller than the number of workers of the ambient rayon pool (3 samples x 2 functions, 8 workers): par_chunks(0) panics inside build()/set_params",
